@@ -76,6 +76,16 @@ type CapSched struct {
 	Calls   []SchedCall
 	running map[string]int
 	wg      sync.WaitGroup
+	// afterSchedule, when set, is called after a job has been entered in the table and before ScheduleJob returns
+	// to its caller (outside the lock): a caller that is descheduled right after the scheduler took its job.
+	afterSchedule func(name string)
+}
+
+// SetAfterSchedule installs (or with nil removes) the after-schedule hook.
+func (s *CapSched) SetAfterSchedule(f func(name string)) {
+	s.mu.Lock()
+	s.afterSchedule = f
+	s.mu.Unlock()
 }
 
 func NewCapSched() *CapSched {
@@ -87,6 +97,19 @@ func (s *CapSched) rec(op, class, name string, at time.Time, err error) {
 }
 
 func (s *CapSched) ScheduleJob(ctx context.Context, class string, name string, runtime time.Time, job scheduler.JobFunc) error {
+	err := s.scheduleJob(ctx, class, name, runtime, job)
+	if err == nil {
+		s.mu.Lock()
+		hook := s.afterSchedule
+		s.mu.Unlock()
+		if hook != nil {
+			hook(name)
+		}
+	}
+	return err
+}
+
+func (s *CapSched) scheduleJob(ctx context.Context, class string, name string, runtime time.Time, job scheduler.JobFunc) error {
 	s.mu.Lock()
 	defer s.mu.Unlock()
 	if name == "" {
